@@ -309,7 +309,8 @@ def case_df_history(prog, letters):
 # ---------------------------------------------------------------------------- faults (C12)
 FAULTS = ["none", "drop-first", "drop-middle", "drop-last", "duplicate", "unknown-item", "nan-value", "missing-column", "missing-single-item-column",
           "two-odd-value-columns", "unknown+drop", "duplicate+drop", "nan+unknown", "duplicate-after-type-conversion",
-          "unknown-item-first-dimension", "unknown-item-early", "unknown-item-in-single-item-column"]
+          "unknown-item-first-dimension", "unknown-item-early", "unknown-item-in-single-item-column",
+          "repeated-row-labels", "nan+repeated-row-labels"]
 
 
 def long_frame(dw, arr, letters):
@@ -388,10 +389,14 @@ def apply_fault(dw, df: PD.Frame, letters, fault):
             rows = [r[:j] + r[j + 1:] for r in rows]
             ci = [cols.index(n) for n in names if n in cols]
             vi = cols.index("value")
+        elif f == "repeated-row-labels":
+            note["row_labels"] = [(i % 2,) for i in range(len(rows))]     # as after pd.concat without ignore_index: labels 0,1,0,1,...
         elif f == "two-odd-value-columns":
             cols.append("other")
             rows = [r + [rat(1)] for r in rows]
             note["odd_columns"] = True
+    if note.get("row_labels") and len(note["row_labels"]) == len(rows):
+        return PD.Frame(cols, rows, PD.Index(note["row_labels"], [None], False, False)), removed, nan_keys, note
     return PD.Frame(cols, rows), removed, nan_keys, note
 
 
